@@ -2,16 +2,12 @@
 //!
 //!   conf replay <cases.ndjson> <report.json>     spec -> code: execute, match against `exp`
 //!   conf exec   <cases.ndjson> <trace.ndjson>    code -> spec: execute, write observations
+//!   conf parsex <raw TLC lines> <report.json> <iface> <starts>
 //!
 //! Exit status: 0 done (verdicts are in the report), 2 harness/tool error, 3 watchdog
 //! (the code under test did not return: the report names the case).
 
-use std::io::{BufRead, BufReader, BufWriter, Write};
-use std::sync::atomic::{AtomicU64, Ordering};
-use std::sync::{Arc, Mutex};
-
-use serde_json::{json, Value as J};
-
+mod app;
 mod cases;
 pub mod dut;
 #[allow(clippy::all)]
@@ -21,210 +17,6 @@ pub mod rec;
 #[global_allocator]
 static GLOBAL: rec::Counting = rec::Counting;
 
-fn watchdog(progress: Arc<AtomicU64>, current: Arc<Mutex<String>>, report: String, secs: u64) {
-    std::thread::spawn(move || {
-        let mut last = progress.load(Ordering::Relaxed);
-        let mut idle = 0;
-        loop {
-            std::thread::sleep(std::time::Duration::from_millis(500));
-            let now = progress.load(Ordering::Relaxed);
-            if now == last {
-                idle += 1;
-            }
-            else {
-                idle = 0;
-                last = now;
-            }
-            if idle >= secs * 2 {
-                let cur = current.lock().map(|c| c.clone()).unwrap_or_default();
-                let case: J = serde_json::from_str(&cur).unwrap_or(J::Null);
-                let rep = json!({"hang": true, "case": case});
-                let _ = std::fs::write(&report, serde_json::to_string(&rep).unwrap());
-                eprintln!("WATCHDOG: case did not return within {secs}s");
-                std::process::exit(3);
-            }
-        }
-    });
-}
-
 fn main() {
-    let args: Vec<String> = std::env::args().collect();
-    if args.len() < 4 {
-        eprintln!("usage: conf replay|exec <cases.ndjson> <out>");
-        std::process::exit(2);
-    }
-    std::panic::set_hook(Box::new(|_| {}));
-    let mode = args[1].as_str();
-    let input = std::fs::File::open(&args[2]).unwrap_or_else(|e| {
-        eprintln!("harness: cannot open {}: {e}", args[2]);
-        std::process::exit(2)
-    });
-    let max_fail: usize = std::env::var("CONF_MAX_FAIL").ok().and_then(|s| s.parse().ok()).unwrap_or(20);
-    let wd_secs: u64 = std::env::var("CONF_WATCHDOG_S").ok().and_then(|s| s.parse().ok()).unwrap_or(20);
-    let progress = Arc::new(AtomicU64::new(0));
-    let current = Arc::new(Mutex::new(String::new()));
-    watchdog(progress.clone(), current.clone(), format!("{}.hang", args[3]), wd_secs);
-
-    let mut duts = cases::Duts::new();
-    let reader = BufReader::new(input);
-    match mode {
-        "replay" => {
-            let mut total = 0u64;
-            let mut ok = 0u64;
-            let mut nontrivial = 0u64;
-            let mut alt_hist: Vec<u64> = Vec::new();
-            let mut fails: Vec<J> = Vec::new();
-            let mut nfail = 0u64;
-            let mut allocs = 0u64;
-            for line in reader.lines() {
-                let line = line.unwrap();
-                if line.trim().is_empty() {
-                    continue;
-                }
-                let c: J = match serde_json::from_str(&line) {
-                    Ok(c) => c,
-                    Err(e) => {
-                        eprintln!("harness: bad case line: {e}");
-                        std::process::exit(2)
-                    }
-                };
-                *current.lock().unwrap() = line.clone();
-                let obs = cases::execute(&mut duts, &c);
-                progress.fetch_add(1, Ordering::Relaxed);
-                total += 1;
-                let pobs = cases::project(&obs);
-                let (good, alt) = cases::judge(&c, &pobs);
-                if let Some(evs) = obs.as_array() {
-                    if evs.iter().any(|e| matches!(e["e"].as_str(), Some("call" | "err" | "out" | "write"))) {
-                        nontrivial += 1;
-                    }
-                    for e in evs {
-                        if let Some(a) = e.get("allocs").and_then(|a| a.as_u64()) {
-                            allocs += a;
-                        }
-                    }
-                }
-                else if obs["v"] == "acc" {
-                    nontrivial += 1;
-                }
-                if good {
-                    ok += 1;
-                    if alt_hist.len() <= alt {
-                        alt_hist.resize(alt + 1, 0);
-                    }
-                    alt_hist[alt] += 1;
-                }
-                else {
-                    nfail += 1;
-                    if fails.len() < max_fail {
-                        fails.push(json!({"case": c, "obs": pobs}));
-                    }
-                }
-            }
-            let rep = json!({"total": total, "ok": ok, "fail": nfail, "nontrivial": nontrivial,
-                             "alt_hist": alt_hist, "allocs": allocs, "fails": fails});
-            std::fs::write(&args[3], serde_json::to_string(&rep).unwrap()).unwrap();
-        }
-        "parsex" => {
-            // raw REPLAY lines of MCScpiSyntax: <<"REPLAY", "{\"x\":[..],\"exp\":[[alts per start]..]}">>
-            // args: parsex <raw> <report> <iface> <starts json: [[[bytes]..]..]>
-            let iface = args.get(4).cloned().unwrap_or_else(|| "main".into());
-            let starts: J = serde_json::from_str(args.get(5).map(|s| s.as_str()).unwrap_or("[[]]")).unwrap();
-            let starts: Vec<Vec<String>> = starts
-                .as_array()
-                .unwrap()
-                .iter()
-                .map(|st| st.as_array().unwrap().iter().map(|m| String::from_utf8(cases::jbytes(m)).unwrap()).collect())
-                .collect();
-            let root = duts.get(&iface).root();
-            let (mut total, mut ok, mut nontrivial, mut nfail, mut skipped) = (0u64, 0u64, 0u64, 0u64, 0u64);
-            let mut fails: Vec<J> = Vec::new();
-            let norm = |sig: &mut J| {
-                if let Some(ch) = sig.get_mut("ch").and_then(|c| c.as_array_mut()) {
-                    let mut v: Vec<Vec<u8>> = ch.iter().map(cases::jbytes).collect();
-                    v.sort();
-                    *ch = v.iter().map(|b| rec::bytes(b)).collect();
-                }
-            };
-            for line in reader.lines() {
-                let line = line.unwrap();
-                let Some(rest) = line.strip_prefix("<<\"REPLAY\", ") else { continue };
-                let Some(lit) = rest.strip_suffix(">>") else { continue };
-                let inner: String = serde_json::from_str(lit).unwrap_or_else(|e| {
-                    eprintln!("harness: bad REPLAY literal: {e}");
-                    std::process::exit(2)
-                });
-                let item: J = serde_json::from_str(&inner).unwrap();
-                let x = cases::jbytes(&item["x"]);
-                *current.lock().unwrap() = inner.clone();
-                for (si, st) in starts.iter().enumerate() {
-                    let mut alts = item["exp"][si].as_array().cloned().unwrap_or_default();
-                    if alts.is_empty() {
-                        skipped += 1;
-                        continue;
-                    }
-                    for a in alts.iter_mut() {
-                        if a["v"] == "acc" {
-                            norm(&mut a["node"]);
-                            if a["com"] == true {
-                                a["hdr"] = J::Null;
-                            }
-                            else {
-                                norm(&mut a["hdr"]);
-                            }
-                            a["suffix"] = json!(true);
-                        }
-                        else if a["v"] == "empty" {
-                            a["suffix"] = json!(true);
-                        }
-                    }
-                    let obs = dut::parse_obs(root, st, &x);
-                    progress.fetch_add(1, Ordering::Relaxed);
-                    total += 1;
-                    if obs["v"] == "acc" {
-                        nontrivial += 1;
-                    }
-                    if alts.iter().any(|a| cases::matches(a, &obs)) {
-                        ok += 1;
-                    }
-                    else {
-                        nfail += 1;
-                        if fails.len() < max_fail {
-                            fails.push(json!({"case": {"kind": "parse", "iface": iface, "in": item["x"],
-                                "start": st.iter().map(|m| rec::bytes(m.as_bytes())).collect::<Vec<_>>(), "exp": alts}, "obs": obs}));
-                        }
-                    }
-                }
-            }
-            let rep = json!({"total": total, "ok": ok, "fail": nfail, "nontrivial": nontrivial, "skipped": skipped, "fails": fails});
-            std::fs::write(&args[3], serde_json::to_string(&rep).unwrap()).unwrap();
-        }
-        "exec" => {
-            let mut out = BufWriter::new(std::fs::File::create(&args[3]).unwrap());
-            for line in reader.lines() {
-                let line = line.unwrap();
-                if line.trim().is_empty() {
-                    continue;
-                }
-                let mut c: J = match serde_json::from_str(&line) {
-                    Ok(c) => c,
-                    Err(e) => {
-                        eprintln!("harness: bad case line: {e}");
-                        std::process::exit(2)
-                    }
-                };
-                *current.lock().unwrap() = line.clone();
-                let obs = cases::execute(&mut duts, &c);
-                progress.fetch_add(1, Ordering::Relaxed);
-                c["obs"] = obs;
-                serde_json::to_writer(&mut out, &c).unwrap();
-                out.write_all(b"\n").unwrap();
-            }
-            out.flush().unwrap();
-        }
-        _ => {
-            eprintln!("harness: unknown mode {mode}");
-            std::process::exit(2);
-        }
-    }
+    app::main_impl()
 }
